@@ -170,7 +170,7 @@ pub const C37: Check = Check {
            fake rsync (5-40 ms) and an injected delay at the hook between releasing the in-progress marker and recording completion; every \
            third case serves the shared repositories via RRDP instead (slow notification answers, delay at the hook before the update \
            result is recorded; oracle: at most one notification request per repository and run, from the fake HTTPS log). \
-           Only successful runs on fresh caches are judged. Monitors: the fake rsync's invocation log (start/end on CLOCK_MONOTONIC, \
+           Only successful runs on fresh caches are judged; in a quarter of the rsync cases one shared module fails (non-zero exit) and must still be tried once only. Monitors: the fake rsync's invocation log (start/end on CLOCK_MONOTONIC, \
            module, pid) and the collector's read events (hook, same clock). Oracle: per run and module at most one invocation; every \
            read of a file of a module happens after the end of that module's (first) fetch; payload equals the oracle's. distinct = \
            (threads, siblings, modules, window-delay) classes; the number of runs in which a second thread arrived inside the \
@@ -236,6 +236,10 @@ fn run_c37(ctx: &mut Ctx, rep: &mut Report) {
             let ms = if m >= 100 { rng.below(30) } else { rsync_delay + (m as u64 - 1) * (3 + rng.below(12)) };
             std::fs::write(d.join("repo"), ms.to_string()).unwrap();
         }
+        // In a quarter of the rsync cases one shared module fails (rsync exits non-zero): it must still be tried only once,
+        // however many CAs live in it.
+        let failing_repo = if i % 3 != 2 && rng.chance(1, 4) { Some(1 + rng.usize(modules)) } else { None };
+        if let Some(fr) = failing_repo { for c in w.cas.iter_mut() { if c.repo == fr { c.unreachable = true; } } }
         // Every third case publishes the shared repositories via RRDP instead (same oracle on the notification requests).
         let via_rrdp = i % 3 == 2;
         if via_rrdp { for c in w.cas.iter_mut() { if c.parent.is_some() { c.rrdp = true; } } }
@@ -305,7 +309,8 @@ fn run_c37(ctx: &mut Ctx, rep: &mut Report) {
         if !su.is_empty() || !mi.is_empty() { rep.violation("C37/payload-differs", format!("payload differs from the oracle: surplus {:?} missing {:?}", su.iter().take(2).collect::<Vec<_>>(), mi.iter().take(2).collect::<Vec<_>>()), replay.clone()); }
         // how contended was it?
         let arrivals = events.iter().filter(|e| e.name == "rsync.between_running_and_updated").count();
-        rep.class(format!("t{}|s{}|m{}|w{}", threads.min(8), siblings / 5, modules, window));
+        rep.class(format!("t{}|s{}|m{}|w{}|failing{}", threads.min(8), siblings / 5, modules, window, failing_repo.is_some() as u8));
+        if failing_repo.is_some() { rep.count("cases_with_failing_module", 1); }
         rep.max("max_window_passages_per_run", arrivals as u64);
         if rep.samples.len() < 2 { rep.sample(json!({"threads": threads, "siblings": siblings, "modules": modules, "fetches": per_module.iter().map(|(k, v)| (k.clone(), v.len())).collect::<BTreeMap<_, _>>()})); }
     }
